@@ -33,6 +33,7 @@ type c03Op struct {
 	GU    []string `json:"gu,omitempty"` // access() grantees (users, "role:x")
 	RU    []string `json:"ru,omitempty"` // role() grantees
 	Node  int      `json:"node"`
+	As    string   `json:"as,omitempty"` // doc / deldoc: the writing user ("" = administrator); used when that user exists
 }
 
 type c03Plan struct {
@@ -100,8 +101,14 @@ func c03Generate(seed uint64, tier string, index int) json.RawMessage {
 					op.Kind, op.Doc = "doc", r.Intn(3)
 					op.GU, op.Chans = subset(r, grantees, 350), subset(r, c03Chans, 450)
 					op.RU, op.Roles = subset(r, c03UserNames, 300), subset(r, roleRefs, 450)
+					if r.Chance(400) {
+						op.As = c03UserNames[r.Intn(3)] // written by a user (who may hold roles the document grants to)
+					}
 				case x < 18:
 					op.Kind, op.Doc = "deldoc", r.Intn(3)
+					if r.Chance(300) {
+						op.As = c03UserNames[r.Intn(3)]
+					}
 				case x < 21:
 					op.Kind, op.Doc = "branch", r.Intn(3)
 					op.GU, op.Chans = subset(r, grantees, 350), subset(r, c03Chans, 450)
@@ -281,6 +288,13 @@ func c03Run(env *verifsim.Env, raw json.RawMessage) *verifsim.Violation {
 			rec.End(map[string]any{"deleted": err == nil, "name": op.Name}, err)
 		case "doc", "deldoc":
 			rec := t.Begin(op.Kind, op)
+			if op.As != "" {
+				// the request of a user: the document is written with that user's identity
+				if u, uerr := n.dbc.Authenticator(ctx).GetUser(op.As); uerr == nil && u != nil {
+					coll, ctx = n.collection(u)
+					s.Probe("c03.document-written-by-user")
+				}
+			}
 			id := docID(op.Doc)
 			body := Body{"tok": tok, "channels": []any{"D"}}
 			if len(op.GU) > 0 && len(op.Chans) > 0 {
